@@ -176,6 +176,15 @@ class Party:
             mc.ctx.probe("sigma_checked")
         if len(self.p0) != self.expect.n:
             raise Violation("C10.param_count", got=len(self.p0), want=self.expect.n)
+        # the box handed to the optimizer never reaches outside the parameter bounds of the
+        # model (a prescribed sill may only narrow it)
+        ex = self.expect
+        for j, name in enumerate(ex.order):
+            b = ex.bounds.get(name)
+            if b is not None and (lo[j] < b[0] - 1e-12 * max(1.0, abs(b[0]))
+                                  or hi[j] > b[1] + 1e-12 * max(1.0, abs(b[1]))):
+                raise Violation("C10.optimizer_box_outside_bounds", param=name,
+                                box=[float(lo[j]), float(hi[j])], bounds=list(b[:2]))
         if np.any(self.p0 <= lo) or np.any(self.p0 >= hi):
             raise Violation("C10.p0_outside_bounds", p0=self.p0.tolist(), lo=lo.tolist(),
                             hi=hi.tolist())
@@ -488,6 +497,7 @@ class Machine:
         kw["method"] = rng.choice(["trf", "trf", "dogbox"])
         kw["loss"] = rng.choice(["soft_l1", "linear", "huber"])
         kw["bounds"] = rng.random() < 0.3
+        kw["var_low_frac"] = rng.choice([0.0, 0.0, 0.2])
         kw["nugget_low"] = rng.choice([0.0, 0.0, 0.05, 0.2])
         kw["shared_kwargs"] = rng.random() < 0.4
         kw["data_layout"] = rng.choice(["C", "C", "F", "strided", "list"])
@@ -538,7 +548,8 @@ class Machine:
             nlow = kw.get("nugget_low", 0.0)
             if nlow > min(cur["nugget"], t["nugget"]):
                 nlow = 0.0
-            m.set_arg_bounds(var=[1e-3, vmax], len_scale=[1e-3 * t["len_scale"], lmax],
+            vlow = max(1e-3, kw.get("var_low_frac", 0.0) * min(cur["var"], t["var"]))
+            m.set_arg_bounds(var=[vlow, vmax], len_scale=[1e-3 * t["len_scale"], lmax],
                              nugget=[nlow, max(cur["nugget"], t["nugget"]) * 3 + 1.0, "cc"])
             self.ctx.probe("custom_bounds")
         if op["party"] == "real":
@@ -624,6 +635,14 @@ class Machine:
         self.y_handed = yd.copy()
         self.w_handed = np.asarray(call["weights"], dtype=np.double).copy() \
             if w in ("array", "list", "mask01") else None
+        if w in ("array", "mask01"):
+            # the caller keeps ONE weights array per kind and hands the same object to every
+            # fit of the history (expected values are taken from the pristine copy above)
+            store = self.__dict__.setdefault("caller_weights", {})
+            key = (w, tuple(kw.get("mask_bins", [])))
+            if key in store:
+                self.ctx.probe("weights_array_reused")
+            call["weights"] = store.setdefault(key, call["weights"])
         lay = kw.get("data_layout", "C")
         if lay == "F" and yd.ndim == 2:
             yd = np.asfortranarray(yd)          # e.g. the transpose of an (n_bins, dim) table
